@@ -143,7 +143,7 @@ Lemma Hrev_ok : forall n b rp, 0 < b -> Forall (pair_ok n) rp -> bfgs_ok n (lb_H
 Proof.
   intros n b rp Hb. induction rp as [|[s y] r IH]; intros F; cbn [lb_Hrev].
   - apply scaled_identity_ok. exact Hb.
-  - inversion F as [|? ? (Ls & Ly & D) F']; subst. cbn [fst snd] in *.
+  - apply Forall_cons_iff in F; destruct F as [(Ls & Ly & D) F']. cbn [fst snd] in *.
     destruct (IH F') as [HL HR HS HP].
     constructor.
     + apply update_length; assumption.
@@ -156,7 +156,7 @@ Lemma lb_rec_length : forall n b rp x, Forall (pair_ok n) rp -> length x = n -> 
 Proof.
   intros n b. induction rp as [|p r IH]; intros x F Lx; cbn [lb_rec].
   - rewrite vdiv_length. exact Lx.
-  - inversion F as [|? ? (Ls & Ly & D) F']; subst.
+  - apply Forall_cons_iff in F; destruct F as [(Ls & Ly & D) F'].
     rewrite vadd_length; [apply IH; [exact F'|] | rewrite vscale_length, IH; [congruence | exact F' |]];
       rewrite vsub_length; rewrite ?vscale_length; congruence.
 Qed.
@@ -167,7 +167,7 @@ Lemma lb_rec_bil : forall n b rp, 0 < b -> Forall (pair_ok n) rp ->
 Proof.
   intros n b rp Hb. induction rp as [|[s y] r IH]; intros F x z Lx Lz.
   - cbn [lb_rec lb_Hrev]. rewrite dot_vdiv_r, bil_mscale, bil_identity by assumption. rewrite qdiv_eq. field. lra.
-  - inversion F as [|? ? (Ls & Ly & D) F']; subst. cbn [fst snd] in *.
+  - apply Forall_cons_iff in F; destruct F as [(Ls & Ly & D) F']. cbn [fst snd] in *.
     specialize (IH F'). pose proof (Hrev_ok n b r Hb F') as [HL HR HS HP].
     cbn [lb_rec lb_Hrev]. cbv zeta. rewrite !lb_rho_eq. cbn [fst snd].
     set (Hr := lb_Hrev n b r) in *. set (d := dot y s) in *.
@@ -179,7 +179,9 @@ Proof.
     assert (length q = n) as Lq by (apply lb_rec_length; assumption).
     rewrite dot_vadd_r by (rewrite vscale_length; congruence).
     rewrite dot_vscale_r. qn'.
-    rewrite (IH x1 z Lx1 Lz). rewrite (IH x1 y Lx1 Ly).
+    assert (dot z q == bil Hr z x1) as Ez by (apply IH; assumption).
+    assert (dot y q == bil Hr y x1) as Ey by (apply IH; assumption).
+    rewrite Ez, Ey.
     unfold x1. rewrite !(bil_vsub_r n Hr) by assumption. rewrite !(bil_vscale_r n Hr) by assumption.
     rewrite (bil_update n Hr y s d HL HR Ly Ls z x).
     rewrite !Qred_correct.
